@@ -1,17 +1,144 @@
 (* Dispatcher of C07: the same recorded histories as C06, compared with the
    model on queue values / queue contents / client sets and checked with the C07
    oracle (bounds, index consistency, heap order, recency), plus floods of
-   unknown clients against the full store. *)
+   unknown clients against the full store.  The histories are also replayed on
+   the concrete store of Model/TssHeap.v (container/heap on the tssQueue array):
+   after every operation the observed queue array must EQUAL the model's array
+   slot by slot and the client's qidx must be the model's back-pointer. *)
 From Coq Require Import ZArith List String Bool.
-From ST Require Import Base.Ints Base.Value Model.Tss Model.TssOracle Extract.GlueBase Extract.GlueTss.
+From ST Require Import Base.Ints Base.Value Model.Tss Model.TssOracle Model.TssHeap Extract.GlueBase Extract.GlueTss.
 Import ListNotations.
 Open Scope string_scope.
 Open Scope Z_scope.
 
+(* ---- replay on the concrete store: layout of the queue array ---- *)
+Definition pair_eqb (p q : Z * Z) : bool := (fst p =? fst q) && (snd p =? snd q).
+
+(* the observed item of the client against the concrete model: present iff the model
+   has one, same queue value, qidx = the model's back-pointer *)
+Definition item_layout_ok (s : tssh) (cid : Z) (itv : value) : bool :=
+  match parse_item itv, find_item cid (hs_items s) with
+  | Some (Some oi), Some it =>
+      (oi_qval oi =? it_qval it) && (oi_qidx oi =? Z.of_nat (bp_get cid (h_bp (hs_heap s))))
+  | Some None, None => true
+  | _, _ => false
+  end.
+
+Definition layout_ok (s : tssh) (cid : Z) (itv qv : value) : bool :=
+  match parse_queue qv with
+  | Some queue => list_eqb pair_eqb (h_arr (hs_heap s)) queue && item_layout_ok s cid itv
+  | None => false
+  end.
+
+Definition layout_step (c : config) (st : option tssh) (o : op) (ob : value) : option tssh * bool :=
+  match st with
+  | None => (None, false)
+  | Some s =>
+      match o, ob with
+      | OpHandle cid q rxt now _, VL [VZ 0; VZ org; VZ rx; VZ tx; VZ ref; VZ rxt'; VZ txt'; itv; qv] =>
+          match handle_h c s cid q rxt now with
+          | Some out =>
+              let r := ho_reply out in
+              (Some (ho_state out),
+               (r_org r =? org) && (r_rx r =? rx) && (r_tx r =? tx) && (r_ref r =? ref) &&
+               (ho_rxt out =? rxt') && (ho_txt out =? txt') && layout_ok (ho_state out) cid itv qv)
+          | None => (None, false)
+          end
+      | OpUpdateTx cid rxt txt, VL [VZ 1; VZ txt'; itv; qv] =>
+          let out := update_tx_h s cid rxt txt in
+          (Some (ht_state out), (ht_txt out =? txt') && layout_ok (ht_state out) cid itv qv)
+      | _, _ => (None, false)
+      end
+  end.
+
+Fixpoint layout_replay (c : config) (st : option tssh) (ops : list op) (obs : list value) : bool :=
+  match ops, obs with
+  | [], [] => true
+  | o :: ro, ob :: rb => let '(st', ok) := layout_step c st o ob in ok && layout_replay c st' ro rb
+  | _, _ => false
+  end.
+
+Definition run_layout (a o : list value) : bool :=
+  match a, o with
+  | [VL opsv], [VL obs; VL _] =>
+      match parse_ops opsv with
+      | Some ops => layout_replay real_config (Some tssh_empty) ops obs
+      | None => false
+      end
+  | _, _ => false
+  end.
+
+(* ---- kind heap.ops: the real container/heap on a queue with tssQueue's methods ----
+   ops: [0 key val] Push, [1] Pop, [2 idx] Remove, [3 idx val] qval := val; Fix(idx);
+   observed after every op: the array [[key qval] ...], the qidx of every slot's item,
+   and what Pop/Remove returned ([] otherwise) *)
+Inductive hop := HPush (k v : Z) | HPop | HRemove (i : Z) | HFix (i v : Z).
+
+Definition parse_hop (v : value) : option hop :=
+  match v with
+  | VL [VZ 0; VZ k; VZ x] => Some (HPush k x)
+  | VL [VZ 1] => Some HPop
+  | VL [VZ 2; VZ i] => Some (HRemove i)
+  | VL [VZ 3; VZ i; VZ x] => Some (HFix i x)
+  | _ => None
+  end.
+
+Definition hop_model (h : heap) (o : hop) : heap * option (Z * Z) :=
+  match o with
+  | HPush k v => (hpush h (k, v), None)
+  | HPop => let '(h', x) := hpop h in (h', Some x)
+  | HRemove i => let '(h', x) := hremove h (Z.to_nat i) in (h', Some x)
+  | HFix i v => (hfix (hset_qval h (fst (nth (Z.to_nat i) (h_arr h) hd0)) v) (Z.to_nat i), None)
+  end.
+
+Fixpoint iota_from (i : Z) (n : nat) : list Z :=
+  match n with O => [] | S m => i :: iota_from (i + 1) m end.
+
+(* property oracle on the observation alone: valid priority order, one slot per item,
+   back-pointers right, and Pop returned a least element *)
+Definition hop_oracle (o : hop) (arr : list (Z * Z)) (qidx : list Z) (popped : option (Z * Z)) : bool :=
+  heap_ok (map snd arr) && nodup_z (map fst arr) && list_eqb Z.eqb qidx (iota_from 0 (length arr)) &&
+  match o, popped with
+  | HPop, Some x => forallb (fun y => snd x <=? snd y) arr
+  | HPop, None => false
+  | _, _ => true
+  end.
+
+Fixpoint hops_replay (h : heap) (ops : list value) (obs : list value) : bool * bool :=
+  match ops, obs with
+  | [], [] => (true, true)
+  | ov :: ro, VL [VL arrv; VL qidxv; VL pv] :: rb =>
+      match parse_hop ov, parse_pairs arrv, getZs qidxv, parse_pairs [VL pv] with
+      | Some o, Some arr, Some qidx, popped =>
+          let popped := match pv, popped with [], _ => Some None | _, Some [x] => Some (Some x) | _, _ => None end in
+          match popped with
+          | Some popped =>
+              let '(h', x) := hop_model h o in
+              let agree := list_eqb pair_eqb (h_arr h') arr &&
+                           list_eqb Z.eqb (map (fun kv => Z.of_nat (bp_get (fst kv) (h_bp h'))) (h_arr h')) qidx &&
+                           match x, popped with
+                           | Some a, Some b => pair_eqb a b
+                           | None, None => true
+                           | _, _ => false
+                           end in
+              let '(g, orc) := hops_replay h' ro rb in
+              (agree && g, hop_oracle o arr qidx popped && orc)
+          | None => (false, true)
+          end
+      | _, _, _, _ => (false, true)
+      end
+  | _, _ => (false, true)
+  end.
+
 Definition glue_C07 (k : string) (a o : list value) : option verdict :=
   if is k "tss.hist" then
     let ac := run_hist a o in
-    Some (relational (a_agree07 ac && negb (a_bad ac)) (a_oracle07 ac))
+    Some (relational (a_agree07 ac && negb (a_bad ac) && run_layout a o) (a_oracle07 ac))
+  else if is k "heap.ops" then
+    match a, o with
+    | [VL ops], [VL obs] => let '(g, orc) := hops_replay heap_empty ops obs in Some (relational g orc)
+    | _, _ => Some (relational false true)
+    end
   else if is k "tss.flood" then
     match run_flood o with
     | Some b => Some (relational b b)
